@@ -117,6 +117,14 @@ func c18Run(c C18Case, base string, k int, fault string) (points []string, commi
 			if fault == "crash" {
 				panic(crashSentinel{point})
 			}
+			if fault == "collide" {
+				// the freshly chosen staging name is already taken by a leftover file with other, longer content
+				// (another writer's, or debris of a crash): the store must pick another name, never adopt it
+				if len(paths) > 0 {
+					_ = os.WriteFile(paths[0], bytes.Repeat([]byte{0xEE}, 2*c.Size+64), 0o666)
+				}
+				return nil
+			}
 			if fault == "efbig" {
 				// make the real write(2) fail after part of the data: the file-size limit of this process is
 				// lowered to half of the content until the operation returns
@@ -320,8 +328,11 @@ func c18Check(c C18Case, rec *evid.Rec) error {
 		return err
 	}
 	for k := range points {
-		for _, fault := range []string{"crash", "error", "efbig"} {
+		for _, fault := range []string{"crash", "error", "efbig", "collide"} {
 			if fault == "efbig" && (points[k] != "put.write" || c.Size < 2) {
+				continue
+			}
+			if fault == "collide" && points[k] != "putstream.create" {
 				continue
 			}
 			base, cleanup := mk()
@@ -364,7 +375,7 @@ func drawC18(t *rapid.T, scenario string) C18Case {
 
 var c18Part = evid.Part[C18Case]{
 	Prop: "C18", Name: "faultpoints", Quick: 160, Thorough: 16000,
-	Rule: "scenario (put into a fresh shard dir / an existing one, re-put, streamed put in k chunks, abandoned stream, abort with the empty key, write error, cancelled context) × drawn keys, sizes, escaping and sharding × EVERY hook point of the operation (create staging file, write, close, rename, mkdir of missing parents, retry, cleanup) × {crash: the hook panics and all in-memory state is abandoned; error: the step fails; at the write of Put also efbig: the real write(2) fails after half of the data (file-size limit)}; afterwards a NEW store must find every committed key complete, the in-flight key absent or complete, no partial file outside the staging area, and fresh puts/gets working; every (scenario, point, fault) execution is counted (distinct by construction within a case)",
+	Rule: "scenario (put into a fresh shard dir / an existing one, re-put, streamed put in k chunks, abandoned stream, abort with the empty key, write error, cancelled context) × drawn keys, sizes, escaping and sharding × EVERY hook point of the operation (create staging file, write, close, rename, mkdir of missing parents, retry, cleanup) × {crash: the hook panics and all in-memory state is abandoned; error: the step fails; at the write of Put also efbig: the real write(2) fails after half of the data (file-size limit); at the creation of the staging file also collide: the chosen name already holds a longer leftover file}; afterwards a NEW store must find every committed key complete, the in-flight key absent or complete, no partial file outside the staging area, and fresh puts/gets working; every (scenario, point, fault) execution is counted (distinct by construction within a case)",
 	Gen: func(t *rapid.T) C18Case {
 		return drawC18(t, rapid.SampledFrom(c18Scenarios).Draw(t, "scenario"))
 	},
